@@ -160,6 +160,29 @@ inductive Ord3 where
   | less | equal | greater
   deriving Repr, DecidableEq
 
+/-! ## freshly constructed iterators (constructors, `Clone`): the storage and the initial value of the new counter -/
+
+structure CounterNew where
+  current : Nat
+  deriving Repr, DecidableEq
+structure SliceNew where
+  slice : SliceObj
+  counter : CounterNew
+  deriving Repr
+structure RangeNew where
+  range : RangeObj
+  counter : CounterNew
+  deriving Repr
+structure VecNew where
+  vec : VecObj
+  vec_len : Nat
+  counter : CounterNew
+  deriving Repr
+structure ArrNew where
+  array : ArrObj
+  counter : CounterNew
+  deriving Repr
+
 /-! ## `usize` arithmetic -/
 
 def m_unsupported {α} (_what : String) : M α := M.failWith .unsupported
@@ -184,8 +207,9 @@ def m_saturating_sub (a b : Nat) : M Nat := pure (a - b)
 def m_min (a b : Nat) : M Nat := pure (min a b)
 def m_max (a b : Nat) : M Nat := pure (max a b)
 def m_cmp (a b : Nat) : M Ord3 := pure (if a < b then .less else if a = b then .equal else .greater)
-/-- `Into<usize>` / `From<usize>` for `Idx = usize`: the identity -/
-def m_into (a : Nat) : M Nat := pure a
+/-- `Into<usize>` / `From<usize>` for `Idx = usize`, `usize -> AtomicUsize`, `ManuallyDrop<X> -> UnsafeCell<ManuallyDrop<X>>`:
+the value itself -/
+def m_into {α : Type} (a : α) : M α := pure a
 def m_from (a : Nat) : M Nat := pure a
 
 def m_assert (c : Bool) : M Unit := if c then pure () else M.failWith .assertion
@@ -322,6 +346,18 @@ instance : MLoad AtomicBoolH Bool :=
   ⟨fun h o st => .ok st.completed { st with evs := st.evs ++ [.ld h.loc o (if st.completed then 1 else 0)] }⟩
 instance : MStore AtomicBoolH Bool :=
   ⟨fun h v o st => .ok () { st with completed := v, evs := st.evs ++ [.st h.loc o (if v then 1 else 0)] }⟩
+
+def ManuallyDrop_new {α : Type} (a : α) : M α := pure a
+
+class MAsSlice (C : Type) where
+  m_as_slice : C → M SliceObj
+export MAsSlice (m_as_slice)
+/-- `Vec::as_slice` / `<[T; N]>::as_slice`: the same elements, in place -/
+instance : MAsSlice VecObj := ⟨fun v => pure ⟨v.len⟩⟩
+instance : MAsSlice ArrObj := ⟨fun v => pure ⟨v.len⟩⟩
+
+/-- `Range<usize>::clone` -/
+def m_clone (r : RangeObj) : M RangeObj := pure r
 
 /-- every `BufferedChunk::chunk_size` returns the stored chunk size (each is also translated: `Buf*.chunk_size`) -/
 def BufAny.chunk_size (b : BufSelf) : M Nat := pure b.chunk_size
